@@ -15,6 +15,24 @@ import os
 import sys
 
 
+def _r3(survey, out, pretty_print):
+    """C16 R3 on one live survey: rebuilt from its own JSON dump it renders the same document."""
+    try:
+        from pyxform.builder import create_survey_element_from_dict
+        from vlib import xdiff
+        sv2 = create_survey_element_from_dict(json.loads(json.dumps(survey.to_json_dict())))
+        x2 = sv2.to_xml(validate=False, pretty_print=pretty_print)
+        if x2 == out:
+            return []
+        return [("R3:xform-differs:suite", "survey -> to_json_dict -> JSON text -> survey renders a different document: " + "; ".join(xdiff.diffs(out, x2)[:2])[:400])]
+    except KeyError as e:
+        if str(e) == "'itemset'" and "search(" in out:
+            return [("R3:reload-raises-KeyError-itemset:search-select-after-to_xml", f"reloading the survey's own JSON raised KeyError {e}")]
+        return [("R3:raised:KeyError", f"reloading the survey's own JSON raised KeyError {e}")]
+    except Exception as e:  # noqa: BLE001
+        return [(f"R3:raised:{type(e).__name__}", f"reloading the survey's own JSON raised {type(e).__name__}: {str(e)[:200]}")]
+
+
 def pytest_configure(config):
     log = os.environ.get("VERIF_SUITE_LOG")
     if not log:
@@ -47,10 +65,19 @@ def pytest_configure(config):
                     rec["v"]["C07"] = v7
                     rec["itext_refs"] = nrefs
                     rec["translations"] = ntr
+                if p is not None:
+                    rec["v"]["C03"] = inv.c03_tokens(p)
+                    rec["v"]["C09"] = inv.c09_instances(p)
+                    rec["v"]["C10"] = inv.c10_actions(p)
+                # C14: the same survey rendered again gives the same text
+                again = orig(self, validate=False, pretty_print=pretty_print, warnings=None, enketo=False)
+                rec["v"]["C14"] = [] if again == out else [("regeneration:to_xml-not-idempotent:suite", "a second to_xml() call on the same survey gives different text")]
+                # C16: the survey rebuilt from its own JSON dump renders the same document
+                rec["v"]["C16"] = _r3(self, out, pretty_print) if getattr(self, "title", None) else []  # (a Survey put together by hand without a title is outside the round-trip claim)
                 other = orig(self, validate=False, pretty_print=not pretty_print, warnings=None, enketo=False)
                 compact, pretty = (other, out) if pretty_print else (out, other)
                 rec["v"]["C15"] = inv.c15_same_document(compact, pretty)
-                if rec["v"]["C01"] or rec["v"].get("C02") or rec["v"].get("C07") or rec["v"]["C15"]:
+                if any(rec["v"].get(k) for k in rec["v"]):
                     rec["xform_head"] = out[:3000]
             except Exception as e:  # noqa: BLE001 - a monitor problem must never reach the test
                 rec["monitor_error"] = repr(e)[:300]
